@@ -65,7 +65,7 @@ def cases(tier, rng):
                         continue
                     add(rel=rel, kind=kind, fault=fault, when=when, obs=2, pool=rng.choice([1, 2, 3]))
     if tier == "thorough":
-        for _ in range(60):
+        for _ in range(500):
             kind = rng.choice(KINDS[:4]); fault = rng.choice([f for f in faults_for(kind) if f not in ("stop", "stopgrace", "cut")])
             add(rel=rng.choice(["link", "monitor"]), kind=kind, fault=fault, when=rng.choice(whens), obs=rng.choice([1, 2, 3]), pool=rng.choice([1, 2, 3, 4]))
     return out
